@@ -346,10 +346,10 @@ def items(tier: str, seed: int) -> List[Dict[str, Any]]:
             for eng in (0, 1):
                 if quick and eng == 1 and not ((sid == "CUR2") or (sid in ("CUR3", "CUR11") and ev == "E2")):
                     continue
-                if quick and ev == "E0" and sid in ("CUR7", "CUR10"):
+                if quick and ((ev == "E0" and sid in ("CUR7", "CUR10")) or (ev in ("E1", "E3") and sid == "CUR10")):
                     continue  # 2^(#active states) valuations: thorough tier only
                 heavy = (sid in ("CUR11", "CUR3") and ev == "E0") or (sid in ("CUR7", "CUR10") and ev == "E1")
                 out.append({"ob": "select_diff", "params": {"sid": sid, "spec": spec, "eng": eng, "event": ev},
-                            "timeout": (420 if heavy else 200) if quick else 1200,
+                            "timeout": (330 if heavy else 200) if quick else 1200,
                             "label": f"select_diff[{sid},{ev},{'sync' if eng == 0 else 'async'}]"})
     return out
